@@ -682,7 +682,7 @@ impl GenericSecurityService for NTLMv2SecurityInterface {
         let mut encrypted_data = vec![0; data.len()];
         self.encrypt.process(data, &mut encrypted_data);
         let signature = mac(&mut self.encrypt, &self.signing_key, self.seq_num, data);
-        self.seq_num = self.seq_num + 1;
+        self.seq_num = self.seq_num.wrapping_add(1);
         Ok(to_vec(&trame![signature, encrypted_data]))
     }
 
